@@ -74,3 +74,50 @@ def jbos_loop_invariant(backend, contract):
         from pyvc.interp import OutOfSubset
         raise OutOfSubset('loop mutates %s' % nm)
     return LoopInv(inv, var_types={'escaped': 'bool', 'i': ('opaque', 'SafeStr')}, havoc_obj=havoc_obj)
+
+
+# ---- `$` doubling: the escape both build-file formats use for text that must survive one expansion --------------
+
+DOLLAR_CH = ord('$')
+dollar2 = T.make_cmap('spec_dollar2', lambda c: T.ite(T.eq(c, DOLLAR_CH), T.lit('$$'), T.unit(c)))
+
+
+def dol(w):
+    return dollar2.out((0,), w)
+
+
+_SAME = {}
+
+
+def same_cmap_lemma(code_fold, spec_fold, tag):
+    """The character homomorphism the code uses (e.g. the fold of `s.replace('$', '$$')`) is the spec's one."""
+    from pyvc.contract import Lemma
+    key = (code_fold.name, spec_fold.name)
+    if key not in _SAME:
+        _SAME[key] = Lemma('code_%s_is_%s' % (code_fold.name, spec_fold.name), [('u', T.Str)],
+                           lambda u, a=code_fold, b=spec_fold: a.out((0,), u) == b.out((0,), u), induct=('snoc', 'u'))
+    return _SAME[key]
+
+
+NONNEG = T._Negative.__new__(T._Negative)
+
+
+class _NonNegative(T.CharClass):
+    def __init__(self):
+        T.CharClass.__init__(self, [(0, 1 << 62)], 'non-negative')
+
+    def contains(self, c):
+        if isinstance(c, int):
+            return c >= 0
+        if z3.is_int_value(c):
+            return z3.BoolVal(c.as_long() >= 0)
+        return c >= 0
+
+
+NONNEG = _NonNegative()
+
+
+def all_markers(w):
+    """every element of w is a marker (negative code)"""
+    from pyvc import models as M
+    return z3.Not(M.any_fold(NONNEG).state((0,), w)[0] == 1)
